@@ -21,6 +21,9 @@ struct Row { std::string a; int b = 0; template <class A> void Serialize(A& ar) 
 enum class En { One, Two };
 REGISTER_ENUM(En, { {En::One, "One"}, {En::Two, "Two"} })
 
+using RX8 = std::tuple<std::string, uint64_t, int>; using RXS = std::tuple<std::string, std::string, int>; using RXV = std::tuple<std::string, std::vector<uint8_t>, int>;
+using RXT = std::tuple<std::string, std::chrono::time_point<std::chrono::system_clock, std::chrono::nanoseconds>, int>; using RXD = std::tuple<std::string, double, int>;
+using RXM = std::tuple<std::string, std::map<std::string, int>, int>; using RXA = std::tuple<std::string, std::vector<int>, int>; using RXZ = std::tuple<std::string, bool, int>;   // bool: every item is a mismatch (skip path under Skip)
 struct Probe { std::string cls; size_t peak = 0, largest = 0; long refused = 0; };
 template <class F> static Probe probe(F&& f) {
 	Probe p; auto& a = env::alloc();
@@ -82,7 +85,7 @@ template <class TChar> static void runConverters(bsx::Ctx& c, const std::string&
 
 static void body(bsx::Ctx& c) {
 	const bool thorough = c.tier == "thorough";
-	int scen = c.choose(6, "scenario");
+	int scen = c.choose(7, "scenario");
 	auto policyOpts = [](int pol) { return lib::opts(pol == 0, pol == 0); };
 	if (scen == 0) {
 		// ---- MsgPack: all words up to length L over the class-complete byte alphabet; the last symbol is looped inside
@@ -180,6 +183,50 @@ static void body(bsx::Ctx& c) {
 		}
 		judgeIsolated(c, sig, in.size(), "input bytes=" + std::to_string(in.size()), run, thorough ? 150 : 90);
 		c.sample(sig + " input=" + std::to_string(in.size()) + " bytes");
+	} else if (scen == 6) {
+		// ---- stream reader refill boundary: a multi-byte item of every format family slides across the end of the reader's
+		// chunk (256 bytes; the stream reader refills and squeezes its cache there) and the stream is cut at every byte of
+		// the item and shortly after it, or one byte of the item is replaced. Loaded typed and skipped, from a stream and
+		// (as control) from memory. An input that ends inside an item must end in a std exception, never in reads of stale
+		// or foreign memory (ASan), a hang or a huge allocation.
+		static const std::vector<std::pair<const char*, std::string>> items = {
+			{"u16", std::string("\xcd\x12\x34", 3)}, {"u32", std::string("\xce\x01\x02\x03\x37", 5)}, {"u64", std::string("\xcf\x01\x02\x03\x04\x05\x06\x07\x08", 9)},
+			{"i64", std::string("\xd3\xff\xfe\xfd\xfc\xfb\xfa\xf9\xf8", 9)}, {"f32", std::string("\xca\x3f\x80\x00\x01", 5)}, {"f64", std::string("\xcb\x3f\xf0\x00\x00\x00\x00\x00\x01", 9)},
+			{"str8", std::string("\xd9\x05" "abcde", 7)}, {"str16", std::string("\xda\x00\x05" "abcde", 8)}, {"str32", std::string("\xdb\x00\x00\x00\x05" "abcde", 10)},
+			{"bin8", std::string("\xc4\x03\x01\x02\x03", 5)}, {"bin32", std::string("\xc6\x00\x00\x00\x03\x01\x02\x03", 8)},
+			{"arr16", std::string("\xdc\x00\x02\x01\x02", 5)}, {"arr32", std::string("\xdd\x00\x00\x00\x02\x01\x02", 7)}, {"map16", std::string("\xde\x00\x01\xa1k\x01", 6)},
+			{"ts64", std::string("\xd7\xff\x00\x00\x00\x14\x00\x00\x00\x01", 10)}, {"ts96", std::string("\xc7\x0c\xff\x00\x00\x00\x01\x00\x00\x00\x00\x00\x00\x00\x02", 15)}, {"ext16", std::string("\xc8\x00\x02\x05" "xy", 6)},
+			// items that declare more than the document holds (the uncut document is already ill-formed): a length assembled from the wrong bytes now matters
+			{"str32_declares_2113", std::string("\xdb\x00\x00\x08\x41" "abcde", 10)}, {"bin32_declares_2113", std::string("\xc6\x00\x00\x08\x41\x01\x02\x03", 8)},
+			{"arr32_declares_2113", std::string("\xdd\x00\x00\x08\x41\x01\x02", 7)}, {"str16_declares_2113", std::string("\xda\x08\x41" "abcde", 8)}};
+		int it = c.choose(static_cast<int>(items.size()), "item"); int shift = c.choose(20, "shift"); int mode = c.choose(3, "mode");   // 0 = cut, 1 = corrupt one byte to ff, 2 = corrupt to 00
+		const std::string& item = items[static_cast<size_t>(it)].second;
+		// document: [<str16 padding>, item, 7] (an array root: an ill-formed map would only re-find the throwing destructor of the
+		// object scope, a listed finding); the item starts at offset 256 - 16 + shift, so that each of its bytes meets the boundary
+		const size_t itemAt = 256 - 16 + static_cast<size_t>(shift);
+		const size_t padLen = itemAt - 4;
+		std::string doc = std::string("\x93\xda", 2) + std::string(1, static_cast<char>(padLen >> 8)) + std::string(1, static_cast<char>(padLen & 0xff)) + std::string(padLen, 'p');
+		if (doc.size() != itemAt) { c.violation("C02/refill/internal", "harness arithmetic"); return; }
+		doc += item; const size_t itemEnd = doc.size(); doc += std::string("\x07", 1);
+		std::string sigbase = std::string("C02/refill/item=") + items[static_cast<size_t>(it)].first + (mode == 0 ? "/cut" : "/corrupt");
+		c.describe(sigbase, "item at offset " + std::to_string(itemAt) + " of a " + std::to_string(doc.size()) + "-byte document");
+		c.nontrivial(sigbase + std::to_string(shift));
+		for (size_t pos = itemAt; pos <= (mode == 0 ? itemEnd + 1 : itemEnd - 1); ++pos) {
+			std::string in = mode == 0 ? doc.substr(0, pos) : doc; if (mode) in[pos] = mode == 1 ? '\xff' : '\x00';
+			for (int st = 0; st < 2; ++st) for (int pol = 0; pol < 2; ++pol) {
+				auto o = policyOpts(pol); std::string sfx = std::string(st ? "/stream" : "/mem") + (pol ? "/pol=SS" : "/pol=TT"); std::string info = "pos=" + std::to_string(pos) + " bytes=" + bsx::hex(in.substr(itemAt > 8 ? itemAt - 8 : 0));
+				c.evals(8);
+				judge(c, sigbase + "/target=vector<int>" + sfx, loadAs<tl::MP, RXA>(in, st == 1, o), in.size(), info);
+				judge(c, sigbase + "/target=u64" + sfx, loadAs<tl::MP, RX8>(in, st == 1, o), in.size(), info);
+				judge(c, sigbase + "/target=string" + sfx, loadAs<tl::MP, RXS>(in, st == 1, o), in.size(), info);
+				judge(c, sigbase + "/target=bytes" + sfx, loadAs<tl::MP, RXV>(in, st == 1, o), in.size(), info);
+				judge(c, sigbase + "/target=time_point" + sfx, loadAs<tl::MP, RXT>(in, st == 1, o), in.size(), info);
+				judge(c, sigbase + "/target=double" + sfx, loadAs<tl::MP, RXD>(in, st == 1, o), in.size(), info);
+				judge(c, sigbase + "/target=map" + sfx, loadAs<tl::MP, RXM>(in, st == 1, o), in.size(), info);
+				judge(c, sigbase + "/target=skipped" + sfx, loadAs<tl::MP, RXZ>(in, st == 1, o), in.size(), info);
+			}
+		}
+		if (it == 2 && shift == 10 && mode == 0) c.sample(sigbase + " shift=10: u64 item at offset 250, cut at every byte 250..261");
 	} else {
 		// ---- converters: all strings up to length 3 (thorough 4) over the conversion alphabet, three character widths
 		const int NA = static_cast<int>(sizeof kConvAlpha), L = thorough ? 4 : 3;
